@@ -65,7 +65,13 @@ def run_scratch(name, tier='quick'):
         for l in lines:
             if l.startswith('VIOLATION') and 'replay=' in l:
                 replay = l.split('replay=')[1].split()[0]
-        reason = json.load(open(replay)).get('reason') if replay and os.path.exists(replay) else None
+        rdoc = json.load(open(replay)) if replay and os.path.exists(replay) else {}
+        reason = rdoc.get('reason')
+        if rdoc.get('kind') == 'concrete' and rdoc.get('cases'):
+            # the (shrunk) input that exposed this change joins the corpus of its property: it runs first in every later check
+            os.makedirs('%s/corpus/%s' % (V, prop), exist_ok=True)
+            json.dump({'from': 'seeded change %s' % name, 'cases': [{'stream': c['stream'], 'case': c['case']} for c in rdoc['cases'][:2]]},
+                      open('%s/corpus/%s/%s.json' % (V, prop, name), 'w'), indent=1)
         meta.setdefault('checks', {})[tier] = {'exit': rc, 'lines': lines, 'reason': reason, 'wall_s': round(time.time() - t0, 1),
                                                 'caught': rc == 1 and any(l.startswith('VIOLATION') for l in lines),
                                                 'concrete': bool(lines) and not any('no-failing-input-found' in l for l in lines if l.startswith('VIOLATION')),
